@@ -262,7 +262,7 @@ package source
 //@   ensures ret1 == nil ==> ret0 != nil
 
 //@ unit (*MultiSource).processDependency
-//@   prop C18
+//@   prop C18 C04 C08
 //@   ghost contG int = 0
 //@   ghost sinceG int = 0
 //@   ghost mainNamesG slice
